@@ -228,6 +228,25 @@ def stab2dm (a : Args) : String :=
   let t := CmdTab.tabOf a
   s!"ok {showMat (stabilizerToDensityPure t)} signed={(stabilizerDensity t).toStr}"
 
+
+/-- solver map: `h=tok;cnot_control=tok;cnot_target=tok` -/
+def parseSolverMap (s : String) : MapKey → Option NoiseM :=
+  let ents : List (MapKey × NoiseM) := if s = "" ∨ s = "-" then [] else (splitChar ';' s).map fun e =>
+    match splitChar '=' e with
+    | [k, v] =>
+      let parts := splitChar '_' k
+      let kind := parseKind (parts.headD "")
+      let key : MapKey := match parts.getD 1 "" with
+        | "control" => .control kind | "target" => .target kind | _ => .name kind
+      (key, parseNoise v)
+    | _ => (.name .param, .none)
+  fun k => (ents.find? fun e => e.1 == k).map (·.2)
+
+def noiseIdentify (a : Args) : String :=
+  let mp := parseSolverMap (get a "map")
+  let kinds := (listOf (get a "ops")).map parseKind
+  s!"ok noises={String.intercalate "," (kinds.map fun k => showNoise (identifyNoise k mp))}"
+
 def dispatch (cmd : String) (a : Args) : Option String :=
   match cmd with
   | "dm.ptrace" => some (ptrace a false)
@@ -241,6 +260,7 @@ def dispatch (cmd : String) (a : Args) : Option String :=
   | "noise.trace" => some (noiseTrace a)
   | "noise.assign" => some (noiseAssign a)
   | "noise.unwrap" => some (noiseUnwrap a)
+  | "noise.identify" => some (noiseIdentify a)
   | _ => none
 
 end Graphiq.CmdDM
